@@ -604,6 +604,49 @@ impl World {
         Ok(())
     }
 
+    /// A write through /proc/self/mem: page protections are ignored (FOLL_FORCE) for private
+    /// mappings; pages whose protection "can never be changed" (`policy.mprotect_deny`, the model
+    /// of a read-only shared file mapping) and unmapped or foreign PROT_NONE pages refuse.  Returns
+    /// the number of bytes stored (a short count when a later page refuses).
+    pub fn mem_write_forced(&mut self, addr: u64, bytes: &[u8]) -> usize {
+        self.counters.writes += 1;
+        let mut own = 0u8;
+        let mut n = 0usize;
+        for (i, b) in bytes.iter().enumerate() {
+            let a = addr + i as u64;
+            let denied = self.policy.mprotect_deny.iter().any(|(lo, hi)| a >= *lo && a < *hi);
+            let s = match self.region_at(a) {
+                Some((s, r)) if !denied && !(r.owner == Owner::Foreign && r.prot == 0) => s,
+                _ => break,
+            };
+            let r = self.regions.get_mut(&s).unwrap();
+            own |= own_bit(r.owner);
+            if r.data.is_none() && r.owner == Owner::Injector {
+                r.data = Some(vec![0u8; (r.end - s) as usize]);
+            }
+            if let Some(d) = r.data.as_mut() {
+                d[(a - s) as usize] = *b;
+            }
+            n += 1;
+        }
+        if n > 0 {
+            self.log(Ev::Write { addr, bytes: bytes[..n].to_vec(), own });
+        }
+        n
+    }
+
+    /// The text of /proc/self/maps for the simulated address space.
+    pub fn proc_maps(&self) -> String {
+        let mut out = String::new();
+        for (s, r) in &self.regions {
+            let p = r.prot;
+            let perms = format!("{}{}{}p", if p & PROT_R != 0 { 'r' } else { '-' }, if p & PROT_W != 0 { 'w' } else { '-' }, if p & PROT_X != 0 { 'x' } else { '-' });
+            let path = if r.owner == Owner::Text { "                  /sim/text" } else { "" };
+            out.push_str(&format!("{:08x}-{:08x} {} 00000000 00:00 0{}\n", s, r.end, perms, path));
+        }
+        out
+    }
+
     pub fn flush(&mut self, start: u64, end: u64, kind: u8) {
         self.counters.flushes += 1;
         self.log(Ev::Flush { start, end, kind });
